@@ -966,8 +966,12 @@ class Runner:
                 r = res.get((pi, oi), {})
                 family = 'json' if R.IS_JSON[o.enc] else 'text'
                 if o.error:
-                    et = o.error.split(':')[0]
-                    self.fail('event-write', {'encoder': family, 'event': event, 'error': et}, case, f'{o.enc} {event}: the event could not be rendered/written: {o.error[:200]}')
+                    et, where = o.error.split(':')[0].split(' @')[0], o.error.split(' @')[1].split(': ')[0] if ' @' in o.error else '?'
+                    # what the pipe writer refuses depends on the encoder; what a producer raises does not
+                    canon = {'event': event, 'error': et, 'where': where}
+                    if where.endswith(':write'):
+                        canon['encoder'] = family
+                    self.fail('event-write', canon, case, f'{o.enc} {event}: the event could not be rendered/written: {o.error[:240]}')
                     continue
                 if R.IS_JSON[o.enc]:
                     self.json_records += 1
@@ -983,13 +987,16 @@ class Runner:
                             paths = R.dup_paths(R.load_pairs(rec.decode('ascii')))
                         except ValueError:
                             paths = []
-                        path = canon_path(paths[0]) if paths else ['?', bytes.fromhex(a.split()[1]).decode('ascii', 'replace')]
+                        path = R.attribute_level(canon_path(paths[0])) if paths else ['?', bytes.fromhex(a.split()[1]).decode('ascii', 'replace')]
                         if R.IS_JSON[o.enc]:
                             self.fail('json-line', {'dup': path}, case, f'{o.enc} {event}: key {"/".join(path)!r} occurs twice in one object')
                         continue
                     if a.startswith('bad'):
                         pos = int(a.split()[1])
-                        self.fail('json-line', {'bad': event, **R.bad_context(rec, pos)}, case, f'{o.enc} {event}: not one JSON value on one line; the Lean parser stops at offset {pos}: ...{rec[max(0, pos - 60) : pos + 40]!r}')
+                        bc = R.bad_context(rec, pos)
+                        if 'in' in bc:
+                            bc['in'] = R.attribute_level(bc['in'] + ['?'])[:-1] if 'attribute' in bc['in'] else bc['in']
+                        self.fail('json-line', {'bad': event, **bc}, case, f'{o.enc} {event}: not one JSON value on one line; the Lean parser stops at offset {pos}: ...{rec[max(0, pos - 60) : pos + 40]!r}')
                         continue
                     canon = bytes.fromhex(a.split()[1]).decode('ascii')
                     # differential: Python's reader on the same record must see the same tree
